@@ -532,10 +532,10 @@ fn c14_private(out: &mut Out, rng: &mut Rng, thorough: bool, t0: std::time::Inst
     for &n in &sizes {
         let reps = match (n, thorough) {
             (_, false) => 0,
-            (1, true) => 100,
-            (2, true) => 380,
-            (3, true) => 160,
-            _ => 60,
+            (1, true) => 60,
+            (2, true) => 200,
+            (3, true) => 80,
+            _ => 30,
         };
         for _ in 0..reps {
             let k = match rng.below(24) {
@@ -881,7 +881,7 @@ fn c14_public(out: &mut Out, rng: &mut Rng, thorough: bool, t0: std::time::Insta
         vectors.push(("real-then-template".into(), vec![a.clone(), t.clone()]));
         vectors.push(("same-proof-twice".into(), vec![a.clone(), a.clone()]));
     }
-    let extra = if thorough { 60 } else { 1 };
+    let extra = if thorough { 20 } else { 1 };
     for _ in 0..extra {
         let k = rng.below(4) as usize;
         let v: Vec<(String, Child)> = (0..k).map(|_| rng.pick(&catalogue).clone()).collect();
